@@ -535,6 +535,16 @@ theorem _root_.Rtamt.Py.Dn.gen_visitPredicate_inRob_sensitive (fuel : Nat) (c : 
   | nil => exact absurd rfl hvs
   | cons x xs => rfl
 
+
+/-- the two classes run the same code: on the same value of `node.in_vars` / `node.out_vars` they return the same list
+    (`evalAlgG` runs `visitPredicate_outRob` for both robustness semantics) -/
+theorem _root_.Rtamt.Py.Dn.gen_visitPredicate_inRob_eq_outRob (fuel : Nat) (c : Cmp) (l r : ASig α)
+    (h : l.length + r.length + 4 ≤ fuel) (vs : List (DV α)) :
+    callD fuel Gen.Dense.visitPredicate_inRob [l, r] none [("$operator", .cmp c), ("$in_vars", .list vs)] =
+      callD fuel Gen.Dense.visitPredicate_outRob [l, r] none [("$operator", .cmp c), ("$out_vars", .list vs)] := by
+  rw [iaMethod fuel Gen.Dense.visitPredicate_inRob "$in_vars" fresh_in rfl rfl inRob_body c l r h vs,
+    iaMethod fuel Gen.Dense.visitPredicate_outRob "$out_vars" fresh_out rfl rfl outRob_body c l r h vs]
+
 end GenIAD
 
 end Rtamt.Py.Dn
